@@ -112,9 +112,10 @@ impl ColumnPredicate {
             ColumnPredicate::In(col, values) => {
                 if let Some(stats) = column_stats.get(col) {
                     // Include chunk if any value in the list overlaps [min, max]
-                    values
-                        .iter()
-                        .any(|v| Self::value_in_range(v, &stats.min, &stats.max))
+                    let mixed = Self::has_float(values.iter());
+                    values.iter().any(|v| {
+                        Self::value_in_range(&Self::widen(v, mixed), &stats.min, &stats.max)
+                    })
                 } else {
                     true
                 }
@@ -128,7 +129,9 @@ impl ColumnPredicate {
                     // Include if [min, max] overlaps [low, high]
                     // No overlap if: max < low OR min > high
                     // Overlap if: !(max < low OR min > high)
-                    !(Self::value_lt(&stats.max, low) || Self::value_gt(&stats.min, high))
+                    let mixed = Self::has_float([low, high].into_iter());
+                    let (low, high) = (Self::widen(low, mixed), Self::widen(high, mixed));
+                    !(Self::value_lt(&stats.max, &low) || Self::value_gt(&stats.min, &high))
                 } else {
                     true
                 }
@@ -149,6 +152,20 @@ impl ColumnPredicate {
                 // Always include the chunk (conservative/correct behavior).
                 true
             }
+        }
+    }
+
+    /// Does an operand list contain a float literal?
+    fn has_float<'a>(mut values: impl Iterator<Item = &'a PredicateValue>) -> bool {
+        values.any(|v| matches!(v, PredicateValue::Float64(_)))
+    }
+
+    /// The engine compares the operands of BETWEEN / IN in one common type: next to a float
+    /// literal the integer literals (and the column) are compared as floats too.
+    fn widen(val: &PredicateValue, mixed: bool) -> PredicateValue {
+        match val {
+            PredicateValue::Int64(i) if mixed => PredicateValue::Float64(*i as f64),
+            other => other.clone(),
         }
     }
 
